@@ -4,8 +4,14 @@ import PsVerif.Model.Service
 namespace PsVerif.Driver
 open PsVerif.Model.Service
 
+def resStr : ReqResult → String
+  | .accepted => "accepted" | .refusedKnownId => "refusedKnownId" | .cancelBusy => "cancelBusy"
+
 def handleRegistry (r : Reg) : List String → Option (Reg × String)
   | ["reg.reset"] => some (⟨[], []⟩, "ok")
+  | ["reg.request", id, scid] => do
+    let (r', res) := onRequest r ⟨id, ← unhexStr scid, ""⟩
+    pure (r', resStr res)
   | ["reg.lock", id, scid] => do
     match lockSwap r ⟨id, ← unhexStr scid, ""⟩ with
     | .ok r' => pure (r', "ok")
@@ -15,6 +21,19 @@ def handleRegistry (r : Reg) : List String → Option (Reg × String)
   | ["reg.active"] =>
     let xs := (r.active.map fun a => a.id ++ ":" ++ hexStr a.scid)
     some (r, " ".intercalate (xs.toArray.qsort (· < ·)).toList)
+  | _ => none
+
+/-- the two halves of a request handler with other operations in between -/
+def handleInflight (r : Reg) (pending : Option Entry) : List String → Option (Reg × Option Entry × String)
+  | ["reg.reqbegin", id, scid] => do
+    let e : Entry := ⟨id, ← unhexStr scid, ""⟩
+    if passesIdTest r e then pure (r, some e, "pending") else pure (r, pending, "refusedKnownId")
+  | ["reg.reqend"] =>
+    match pending with
+    | none => some (r, none, "no-request-in-flight")
+    | some e =>
+      let (r', res) := commitRequest r e
+      some (r', none, resStr res)
   | _ => none
 
 end PsVerif.Driver
